@@ -54,7 +54,8 @@ def case_st(draw, allow_fbmc=False):
     scn["seed"] = draw(st.integers(0, 2 ** 40))
     scn["temperature"] = draw(log10_floats(2.7, 4))
     scn["mu"] = draw(fl(-0.5, 0.5))
-    scn["max_cycles"] = draw(st.integers(1, 3))
+    # None = the drivers' default (the atom count at construction time - which a grand-canonical run then leaves behind)
+    scn["max_cycles"] = draw(st.one_of(st.integers(1, 3), st.integers(1, 3), st.none()))
     scn["n_exchange"] = max(scn.get("n_exchange", 0), 1)
     scn["external_stress"] = [[draw(fl(-0.05, 0.05)) for _ in range(3)] for _ in range(3)]
     scn["table"] = [[draw(st.integers(1, 2)), draw(fl(0.2, 2.0)), 0] for _ in scn["entries"]]
